@@ -22,6 +22,14 @@ impl super::Interest for Interest {
     }
 }
 
+/// The token is handed to the OS unchanged whenever it fits in `usize` (always on 64-bit
+/// targets), so that `Event::get_token` returns the token that was registered; only on narrower
+/// targets it has to be folded.
+#[allow(clippy::cast_possible_truncation)]
+fn mio_token(token: u64) -> Token {
+    Token(usize::try_from(token).unwrap_or(((token >> 32) as u32 ^ token as u32) as usize))
+}
+
 impl super::Event for Event {
     fn get_token(&self) -> u64 {
         self.token().0 as u64
@@ -87,28 +95,18 @@ impl super::Selector<Interest, Event, Events> for Poller {
         inner.poll(events, timeout)
     }
 
-    #[allow(clippy::cast_possible_truncation)]
     fn do_register(&self, fd: c_int, token: u64, interests: Interest) -> std::io::Result<()> {
         self.registry().register(
             &mut SourceFd(&fd),
-            Token(
-                ((token >> 32) as u32 ^ token as u32)
-                    .try_into()
-                    .expect("token overflow"),
-            ),
+            mio_token(token),
             interests,
         )
     }
 
-    #[allow(clippy::cast_possible_truncation)]
     fn do_reregister(&self, fd: c_int, token: u64, interests: Interest) -> std::io::Result<()> {
         self.registry().reregister(
             &mut SourceFd(&fd),
-            Token(
-                ((token >> 32) as u32 ^ token as u32)
-                    .try_into()
-                    .expect("token overflow"),
-            ),
+            mio_token(token),
             interests,
         )
     }
